@@ -120,6 +120,16 @@ def run (args : List String) : Option String :=
     let x ← parseRat? x; let y ← parseRat? y
     let P : Poly2d := ⟨Poly2d.reshape k cc, A⟩
     pure (fmtPt ((P.withInputTransform A2).eval (x, y)))
+  | ["polygrid", k, cc, A, xs, ys] => do
+    let k ← parseNat? k; let cc ← parseList? parsePt? cc; let A ← parseAff? A
+    let xs ← parseList? parseRat? xs; let ys ← parseList? parseRat? ys
+    let P : Poly2d := ⟨Poly2d.reshape k cc, A⟩
+    pure (fmtRes (fun rows => fmtList (fun row => fmtList fmtPt row) rows) (P.grid2d xs ys))
+  | ["polygridwith", k, cc, A, A2, xs, ys] => do
+    let k ← parseNat? k; let cc ← parseList? parsePt? cc; let A ← parseAff? A; let A2 ← parseAff? A2
+    let xs ← parseList? parseRat? xs; let ys ← parseList? parseRat? ys
+    let P : Poly2d := ⟨Poly2d.reshape k cc, A⟩
+    pure (fmtRes (fun rows => fmtList (fun row => fmtList fmtPt row) rows) ((P.withInputTransform A2).grid2d xs ys))
   | ["denorm", cc, Ab] => do
     let cc ← parseList? parsePt? cc; let Ab ← parseAff? Ab
     pure (fmtList fmtPt (Poly2d.denorm cc Ab))
